@@ -31,6 +31,9 @@ def modeInput (mode : String) (cp : Nat) : Option (List Nat × List Nat) :=
     some (ctxPre cp ++ jsonEscape false (cp % 2 == 1) cp ++ ctxPost cp ++ [34], ctxPre cp ++ [cp] ++ ctxPost cp)
   else none
 
+/-- The units the harness puts into the destination before the call: a, b, c, … -/
+def prefill (p : Nat) : List Nat := (List.range p).map (fun i => 97 + i % 26)
+
 def showRes : Option (List Nat × Nat) → String
   | none => "FAULT"
   | some (st, r) => toString r ++ "|" ++ showNats st
@@ -92,6 +95,39 @@ def handle (op : String) (args : List String) : String :=
       | some (n, _) => toString n
       | none => "FAULT"
     | none => "bad-op"
+  -- capacity / public-API pass: the model of the stream is its contents, so the stream type and the
+  -- number of free units play no role here (that they play none in the C++ is what is being checked)
+  | "uni_encf", [w, _st, p, _k, lo, hi] =>
+    match parseW w, p.toNat?, lo.toNat?, hi.toNat? with
+    | some w, some p, some lo, some hi =>
+      ";".intercalate ((range lo hi).map (fun u => showNats (prefill p ++ toUTF w u)))
+    | _, _, _, _ => "bad-op"
+  | "uni_escf", [w, _st, mode, p, _k, lo, hi] =>
+    match parseW w, p.toNat?, lo.toNat?, hi.toNat? with
+    | some w, some p, some lo, some hi =>
+      ";".intercalate ((range lo hi).map (fun cp =>
+        match modeInput mode cp with
+        | some (inp, _) => showGroup (unEscapeA w inp inp.length (prefill p))
+        | none => "bad-mode"))
+    | _, _, _, _ => "bad-op"
+  | "uni_unf", [w, _st, _k, pre, u] =>
+    match parseW w, parseNats pre, parseNats u with
+    | some w, some pre, some u => showRes (unEscapeA w u u.length pre)
+    | _, _, _ => "bad-op"
+  | "uni_hexw", [_w, bits, _sz, off, e, u] =>
+    match bits.toNat?, off.toNat?, e.toNat?, parseNats u with
+    | some bits, some off, some e, some u =>
+      match hexLoopW (2 ^ bits) u (e - off) off 0 with
+      | some (n, o) => toString n ++ ":" ++ toString o
+      | none => "FAULT"
+    | _, _, _, _ => "bad-op"
+  | "uni_hex2", [_w, bits, u] =>
+    match bits.toNat?, parseNats u with
+    | some bits, some u =>
+      match hexLoopW (2 ^ bits) u u.length 0 0 with
+      | some (n, _) => toString n
+      | none => "FAULT"
+    | _, _ => "bad-op"
   | "uni_dec", [w, u] =>
     match parseW w, parseNats u with
     | some w, some u => match utfDecode w u with
